@@ -34,6 +34,28 @@ CALLDATA = [("c", bytes(32))] + [("s", f"arg{i}", 32) for i in range(NARGS)]
 MARKERS = {3: "static-value-call", 4: "callcode-funds", 5: "retcopy-zero", 6: "depth-nocode"}
 
 
+# ------------------------------------------------------------------ work-around for harness/zeval.py
+# zeval.Evaluator memoises by z3 AST id without keeping the AST alive: once a temporary term
+# (e.g. ByteVec.unwrap() of a sub-context's output) is garbage-collected its id is reused and
+# the memo answers with the value of the dead term.  zeval.py is a shared file: patch the
+# method here (the memo keeps a reference to the term, so its id cannot be recycled).
+from harness import zeval as _zeval
+
+
+def _ev_keepalive(self, t):
+    if isinstance(t, (int, bool)):
+        return t
+    key = t.get_id()
+    hit = self.memo.get(key)
+    if hit is not None:
+        return hit[1]
+    v = self._ev(t)
+    self.memo[key] = (t, v)
+    return v
+
+
+_zeval.Evaluator.ev = _ev_keepalive
+
 # ------------------------------------------------------------------ compilation
 
 def _ex(e):
@@ -360,6 +382,7 @@ def _evv(ev, x):
     return x if isinstance(x, int) else ev.ev(x)
 
 
+FULL_DATA = True     # inner frames' output data compared byte for byte (False: kind, length, first word)
 SKIP_ERRORS = ("InsufficientFunds", "AddressCollision", "MessageDepthLimitError")
 
 
@@ -387,10 +410,7 @@ def trace_events(ctx, ev, codes, out):
     bs = raw if isinstance(raw, bytes) else ev.ev(raw).to_bytes(n, "big")
     kind = "ok" if err is None else ("revert" if type(err).__name__ == "Revert" else "halt")
     bs = bs if kind != "halt" else b""
-    # CallContext.output.data of an inner frame, read when the path is reported, was seen to
-    # hold stale bytes after its first word (the data was right when the caller consumed it):
-    # inner frames are compared by kind, length and first word; the top frame byte for byte
-    out.append(("end", kind, bs if ctx.depth == 1 else (len(bs), bs[:32])))
+    out.append(("end", kind, bs if ctx.depth == 1 or FULL_DATA else (len(bs), bs[:32])))
     return out
 
 
@@ -402,7 +422,7 @@ def model_events(log):
             depth.append(it[6])
         elif it[0] == "end":
             d = depth.pop() if depth else 1
-            out.append(it if d == 1 else ("end", it[1], (len(it[2]), it[2][:32])))
+            out.append(it if d == 1 or FULL_DATA else ("end", it[1], (len(it[2]), it[2][:32])))
         elif it[0] != "marker":
             out.append(it)
     return out
